@@ -20,6 +20,8 @@ Record access := mkA {
   a_locks : list (string * lmode);    (* mutexes OF THE SAME OBJECT held at the statement *)
   a_fresh : bool;                     (* object allocated in this function and not yet published,
                                          or captured local accessed before the go statement *)
+  a_local : bool;                     (* a local variable of function a_owner captured by a go-closure
+                                         (one instance per invocation of a_owner) *)
   a_recv : list string;               (* channels received from on every path before the access *)
   a_signal : list string              (* channels closed / sent to unconditionally after it *)
 }.
